@@ -419,9 +419,10 @@ type Contract struct {
 	File     string
 	Line     int
 	Returns  []*Clause // "returns fresh"/provenance (extern)
-	Calls    []string  // extern: indices of callback params invoked
+	Calls    []*Clause // extern: callback params invoked (optionally constrained)
 	Uses     []string  // lemmas to instantiate
 	Nullable []string
+	Permutes []string // extern: slice-valued params whose elements are permuted in place
 }
 
 type SpecFunc struct {
@@ -459,10 +460,36 @@ type SpecSet struct {
 	Defaults  []*DefaultRule
 	Files     []string
 	Trusted   []string
+	FieldInv  map[string]*Axiom
+	StrPreds  map[string]*StrPred
+}
+
+// StrPred is a string predicate that is uninterpreted for symbolic strings
+// and evaluated concretely for string literals.
+type StrPred struct {
+	Name string
+	Kind string // contains, containsfold, containsany
+	Text string
+}
+
+func (p *StrPred) Eval(s string) bool {
+	switch p.Kind {
+	case "contains":
+		return strings.Contains(s, p.Text)
+	case "containsfold":
+		return strings.Contains(strings.ToLower(s), strings.ToLower(p.Text))
+	case "containsany":
+		return strings.ContainsAny(s, p.Text)
+	case "hassuffix":
+		return strings.HasSuffix(s, p.Text)
+	case "hasprefix":
+		return strings.HasPrefix(s, p.Text)
+	}
+	return false
 }
 
 func NewSpecSet() *SpecSet {
-	return &SpecSet{Contracts: map[string]*Contract{}, Funcs: map[string]*SpecFunc{}, Ghosts: map[string]*GhostVar{}}
+	return &SpecSet{Contracts: map[string]*Contract{}, Funcs: map[string]*SpecFunc{}, Ghosts: map[string]*GhostVar{}, FieldInv: map[string]*Axiom{}, StrPreds: map[string]*StrPred{}}
 }
 
 // ParseSpecText parses the "//@"-stripped lines of a contract file.
@@ -527,6 +554,27 @@ func (ss *SpecSet) ParseSpecText(file string, lines []string, lineNos []int) err
 			}
 			ss.Axioms = append(ss.Axioms, &Axiom{Name: strings.TrimSpace(rest[:idx]), Expr: e, Src: rest[idx+1:]})
 			cur, curDef = nil, nil
+		case "strpred":
+			// strpred name containsfold "text" | contains "text" | containsany "chars"
+			f := strings.Fields(rest)
+			if len(f) < 3 {
+				return fail(fmt.Errorf("strpred needs: name kind \"text\""))
+			}
+			txt := strings.TrimSpace(rest[strings.Index(rest, f[1])+len(f[1]):])
+			txt = strings.Trim(txt, "\"")
+			ss.StrPreds[f[0]] = &StrPred{Name: f[0], Kind: f[1], Text: txt}
+			cur, curDef = nil, nil
+		case "fieldinv":
+			idx := strings.Index(rest, ":")
+			if idx < 0 {
+				return fail(fmt.Errorf("fieldinv needs 'pkg.Type.field: expr over v'"))
+			}
+			e, err := ParseSpecExpr(strings.TrimSpace(rest[idx+1:]))
+			if err != nil {
+				return fail(err)
+			}
+			ss.FieldInv[strings.TrimSpace(rest[:idx])] = &Axiom{Name: strings.TrimSpace(rest[:idx]), Expr: e, Src: strings.TrimSpace(rest[idx+1:])}
+			cur, curDef = nil, nil
 		case "ghost":
 			parts := strings.SplitN(rest, ":", 2)
 			if len(parts) != 2 {
@@ -588,13 +636,16 @@ func addClause(c *Contract, cl *Clause) {
 	case "results":
 		c.Results = cl.Names
 	case "calls":
-		c.Calls = cl.Names
+		c.Calls = append(c.Calls, cl)
 	case "use":
 		c.Uses = append(c.Uses, cl.Names...)
 	case "mayexit":
 		c.MayExit = cl
 	case "nullable":
 		c.Nullable = append(c.Nullable, cl.Names...)
+	case "permutes":
+		c.Permutes = append(c.Permutes, cl.Names...)
+		c.HasMod = true
 	}
 }
 
@@ -635,7 +686,19 @@ func parseClause(word, rest string) (*Clause, error) {
 				cl.Names = append(cl.Names, n)
 			}
 		}
-	case "props", "results", "calls", "use", "nullable":
+	case "calls":
+		cl.Kind = "calls"
+		name := rest
+		if idx := strings.Index(rest, " with "); idx >= 0 {
+			name = strings.TrimSpace(rest[:idx])
+			e, err := ParseSpecExpr(strings.TrimSpace(rest[idx+6:]))
+			if err != nil {
+				return nil, err
+			}
+			cl.Expr = e
+		}
+		cl.Names = []string{name}
+	case "props", "results", "use", "nullable", "permutes":
 		cl.Kind = word
 		cl.Names = strings.Fields(strings.ReplaceAll(rest, ",", " "))
 	case "inline", "trusted", "pure":
